@@ -309,6 +309,7 @@ class Parameter(Term):
         if placeholder and idx:
             raise ValueError("Cannot provide both a placeholder and an idx")
 
+        super().__init__()  # a parameter is a term like any other: code that reads .alias (ORDER BY, GROUP BY) must find it
         self._placeholder = placeholder
         self._idx = idx
 
